@@ -6,7 +6,9 @@ import itertools
 import numpy as np
 
 from checks.common import BASE_ASSUMPTIONS, CORE_SHIM_MODULES, perturb
+from oracles import subcircuit_if_model as SI
 from oracles import subcircuit_model as SM
+from oracles.subcircuit_if_model import IfB
 from oracles.subcircuit_model import G, M, P, Cond, Sub, Q
 from symx.explore import Obligation
 from symx.run import run_check
@@ -78,7 +80,7 @@ def ops_product(ops, order):
     return np.asarray(out).reshape(N, N)
 
 
-def build_circuit(items):
+def build_circuit(items, to_cirq=SM.to_cirq):
     """top-level circuit of a scenario: every top-level item in its own moment (InsertStrategy.NEW), so that the program
     order of the spec (e.g. 'outer key measured BEFORE the sub-circuit') is the moment order of the real circuit;
     sub-circuit bodies are built with the default EARLIEST strategy"""
@@ -86,7 +88,7 @@ def build_circuit(items):
 
     c = cirq.Circuit()
     for x in items:
-        c.append(SM.to_cirq(x), strategy=cirq.InsertStrategy.NEW)
+        c.append(to_cirq(x), strategy=cirq.InsertStrategy.NEW)
     return c
 
 
@@ -191,6 +193,151 @@ def scenario_nested(ni, wi, wo, t, u, depth3=False):
 
 
 # ------------------------------------------------------------------------------------------------
+# conditional blocks (cirq.If / ClassicallyControlledOperation over a whole sub-circuit) under key remapping
+# ------------------------------------------------------------------------------------------------
+def if_bodies(t, u):
+    """bodies of the enclosing sub-circuit: qubit 0 is measured into `a` (prepared by H), qubit 1 is the target of the
+    conditional blocks; `b` is a key of the enclosing circuit.  K = `a` is read by the condition of the block AND by
+    controls inside its body, so that a renaming has to reach all three places"""
+    H0, Ma = G('H', [0]), M('a', [0])
+    return [
+        ('if_sub_same', [H0, Ma, IfB(['a'], [Sub([G('X', [1], t, conds=['a']), G('Z', [1], u)])], 'if')]),
+        ('cco_sub_two_keys', [H0, Ma, IfB(['b'], [Sub([G('X', [1], t, conds=['a']), G('Y', [1], u, conds=['b'])])], 'cco')]),
+        ('if_multi', [H0, Ma, IfB(['a'], [G('X', [1], t, conds=['b']), G('Z', [1], u)], 'if')]),
+        ('if_tree_if', [H0, Ma, IfB(['b'], [G('X', [1], t, conds=['a'], how='if'), G('Z', [1], u), G('H', [1], 0.5, conds=['b'])], 'tree')]),
+        ('if_sub_inner_kmap', [H0, Ma, IfB(['b'], [Sub([G('X', [1], t, conds=['k']), G('Z', [1], u, conds=['b'])], kmap={'k': 'a'}, reps=2)], 'if')]),
+        ('cco_sub_inner_path', [H0, Ma, IfB(['a'], [Sub([G('X', [1], t, conds=['a']), G('Y', [1], u, conds=['b'])], path=('s',))], 'cco')]),
+        ('cco_if_sub', [H0, Ma, IfB(['b'], [IfB(['a'], [Sub([G('X', [1], t, conds=['a']), G('Z', [1], u)])], 'if')], 'cco')]),
+        ('if_if_multi_sympy', [H0, Ma, IfB([Cond('eq', 'a', value=1)], [IfB(['b'], [G('X', [1], t), G('Z', [1], u, conds=[Cond('eq', 'b', value=1)])], 'if')], 'if')]),
+        ('if_sub_sub', [H0, Ma, IfB(['a'], [Sub([Sub([G('X', [1], t, conds=['a'])], reps=2, use_ids=True), G('Z', [1], u, conds=['b'])])], 'if')]),
+        ('ctrl_before_meas', [IfB(['a'], [Sub([G('X', [1], t, conds=['a']), G('Y', [1], u, conds=['b'])])], 'if'), H0, Ma]),
+        ('if_single_ops', [H0, Ma, IfB(['a'], [G('X', [1], t)], 'if'), IfB(['b'], [G('Y', [1], u, conds=['a'])], 'if'), IfB([Cond('mask', 'a', bitmask=1, target=1, equal=True), 'b'], [G('Z', [1], 0.3, conds=['a'], how='if')], 'cco')]),
+        ('if_sub_param', [H0, Ma, IfB(['a'], [Sub([G('X', [1], P('th'), conds=['a']), G('Z', [1], u, conds=['b'])])], 'if')]),
+    ]
+
+
+IF_BODY_NAMES = [b[0] for b in if_bodies(0, 0)]
+
+# configurations of the ENCLOSING sub-circuit; the key maps are injective over the names a, b (see bounds: outside)
+IF_WRAPS = [
+    ('plain', dict()),
+    ('ids2', dict(reps=2, use_ids=True)),
+    ('loop2_path2', dict(reps=2, path=('p', 'q'))),
+    ('kmap_a', dict(kmap={'a': 'c'})),
+    ('ids2_kmap_swap', dict(reps=2, use_ids=True, kmap={'a': 'b', 'b': 'a'})),
+    ('loop2_kmap_ab_path', dict(reps=2, kmap={'a': 'c', 'b': 'd'}, path=('p',))),
+    ('ids2_qmap_kmap_a', dict(reps=2, use_ids=True, qmap={0: 1, 1: 0}, kmap={'a': 'c'})),
+    ('kmap_b', dict(kmap={'b': 'd'})),
+    # thorough tier only from here
+    ('loop2', dict(reps=2)),
+    ('id_x_path', dict(ids=['x'], path=('p',))),
+    ('ids_xyz_kmap_a', dict(reps=3, ids=['x', 'y', 'z'], kmap={'a': 'c'})),
+    ('ids2_path_kmap_b', dict(reps=2, use_ids=True, path=('p',), kmap={'b': 'd'})),
+    ('kmap_chain', dict(kmap={'a': 'b', 'b': 'c'})),
+    ('ids0', dict(reps=0, use_ids=True)),
+]
+N_IF_WRAPS_QUICK = 8
+IF_WRAPS_QUICK_ALL_ROUTES = ('ids2', 'ids2_kmap_swap', 'loop2_kmap_ab_path')  # quick tier: the other configurations are simulated on the 'state' route only
+
+
+def scenario_if(bi, wi, t, u):
+    """top level: `a` and the name that the enclosing key map gives to `b` are measured on qubit 2 (prepared by H each
+    time), then the enclosing sub-circuit, then a control on the outer `a`"""
+    W = dict(IF_WRAPS[wi][1])
+    kb = W.get('kmap', {}).get('b', 'b')
+    if IF_BODY_NAMES[bi] == 'if_sub_param':
+        W['params'] = {'th': t}
+    items = [G('H', [2]), M('a', [2])]
+    if kb != 'a':
+        items += [G('H', [2]), M(kb, [2])]
+    items += [Sub(if_bodies(t, u)[bi][1], **W), G('Z', [1], u, conds=['a']), G('H', [1], 0.5)]
+    return items, 3
+
+
+# the same enclosing sub-circuit built through other public routes
+VIA = ['kmap_method', 'kmap_protocol', 'kmap_two_steps', 'path_method', 'path_protocol', 'path_prefix', 'path_rescoped', 'repeat_ids', 'with_repetition_ids', 'mapped_op', 'mapped_op_shallow']
+
+
+def build_via(via, items, W):
+    """the real operation of Sub(items, **W) obtained by the route `via`, or None when the route does not apply to W"""
+    import cirq
+
+    W0 = dict(W)
+    if via.startswith('kmap'):
+        km = W0.pop('kmap', None)
+        if not km:
+            return None
+        base = SI.to_cirq(Sub(items, **W0))
+        if via == 'kmap_method':
+            return base.with_measurement_key_mapping(km)
+        if via == 'kmap_protocol':
+            return cirq.with_measurement_key_mapping(base, km)
+        # two steps through fresh intermediate names: composition of key maps
+        return cirq.with_measurement_key_mapping(base.with_measurement_key_mapping({k: 'tmp_' + k for k in km}), {'tmp_' + k: v for k, v in km.items()})
+    if via.startswith('path'):
+        path = W0.pop('path', None)
+        if not path:
+            return None
+        if via == 'path_prefix':  # documented: prefix + existing parent path
+            base = SI.to_cirq(Sub(items, path=path[1:], **W0))
+            return cirq.with_key_path_prefix(base, path[:1])
+        base = SI.to_cirq(Sub(items, **W0))
+        if via == 'path_method':
+            return base.with_key_path(path)
+        if via == 'path_protocol':
+            return cirq.with_key_path(base, path)
+        return cirq.with_rescoped_keys(base, path)
+    if via in ('repeat_ids', 'with_repetition_ids'):
+        ids = SM.effective_ids(Sub([], **{k: w for k, w in W0.items() if k in ('reps', 'ids', 'use_ids')}))
+        if ids is None:
+            return None
+        for k in ('reps', 'ids', 'use_ids'):
+            W0.pop(k, None)
+        if via == 'repeat_ids':
+            return SI.to_cirq(Sub(items, **W0)).repeat(len(ids), list(ids))
+        return SI.to_cirq(Sub(items, reps=len(ids), use_ids=True, ids=[f'tmp{i}' for i in range(len(ids))], **W0)).with_repetition_ids(list(ids))
+    return SI.to_cirq(Sub(items, **W0)).mapped_op(deep=(via == 'mapped_op'))
+
+
+def is_flat_op(op):
+    """no CircuitOperation left in the operation, neither bare nor below classical controls"""
+    import cirq
+
+    return not isinstance(op.without_classical_controls().untagged, cirq.CircuitOperation)
+
+
+def expand_residual(circuit):
+    """mapped_circuit(deep=True) / unroll_circuit_op(deep=True) descend into bare CircuitOperations only: a sub-circuit
+    below a classical condition stays.  It is expanded here by cirq.decompose, in place (moment order kept), so that
+    the result can be compared operation by operation with the flat program"""
+    import cirq
+
+    moments = []
+    for moment in circuit.moments:
+        moments.append(cirq.Moment(o for o in moment.operations if is_flat_op(o)))
+        for o in moment.operations:
+            if not is_flat_op(o):
+                moments.extend(cirq.Circuit(cirq.decompose(o, keep=is_flat_op)).moments)
+    return cirq.Circuit.from_moments(*moments)
+
+
+def spec_bare(it):
+    """the spec of the operation below all conditions of a conditional block (several body items: the implicit sub-circuit)"""
+    while isinstance(it, IfB):
+        it = it.body[0] if len(it.body) == 1 else Sub(it.body)
+    return it
+
+
+def walk_blocks(items):
+    for it in items:
+        if isinstance(it, IfB):
+            yield it
+            yield from walk_blocks(it.body)
+        elif isinstance(it, Sub):
+            yield from walk_blocks(it.items)
+
+
+# ------------------------------------------------------------------------------------------------
 # structural comparison of an unrolled real circuit with the harness flat program
 # ------------------------------------------------------------------------------------------------
 def _desc_real(op):
@@ -275,14 +422,16 @@ def run_real(cx, circuit, order, route, max_draws=64):
     return None, rec, True
 
 
-def compare_run(cx, items, nq, route, wrong=False, label='sim', max_draws=64):
+def compare_run(cx, items, nq, route, wrong=False, label='sim', max_draws=64, to_cirq=SM.to_cirq, flatten=SM.flatten, transform=None):
     """wrapped circuit simulated by the real simulator vs the harness flat program run by the reference interpreter
-    under the same measurement outcomes"""
+    under the same measurement outcomes (transform: real circuit -> real circuit applied before the simulation)"""
     import cirq
 
     order = list(range(nq))
-    circuit = build_circuit(items)
-    flat = SM.flatten(items)
+    circuit = build_circuit(items, to_cirq)
+    if transform is not None:
+        circuit = transform(circuit)
+    flat = flatten(items)
     missing = SM.static_missing(flat)
     try:
         state, rec, full = run_real(cx, circuit, order, route, max_draws)
@@ -866,6 +1015,298 @@ def obligations(tier):
         compare_structure(cx, cirq.unroll_circuit_op(circuit, deep=True, tags_to_check=None), flat, 'unroll_circuit_op(deep=True)', wrong)
 
     obs.append(Obligation('unroll.deep_loop_rebinding', body_deep_rebinding, twin=lambda cx: body_deep_rebinding(cx, wrong=True), points=[], desc='unroll_circuit_op(deep=True) of a scoped sub-circuit containing an id-less loop that reads a key before measuring it: every iteration keeps the binding of the loop body (as mapped_circuit(deep=True) and the simulator do)'))
+
+    # ==== H. conditional blocks (cirq.If / classical control over a whole sub-circuit) under key remapping ============
+    n_ifw = N_IF_WRAPS_QUICK if quick else len(IF_WRAPS)
+
+    def if_struct_checks(cx, items, wrong=False, label=''):
+        circuit = build_circuit(items, SI.to_cirq)
+        flat = SI.flatten(items)
+        top = cirq.CircuitOperation(circuit.freeze())
+        mk, ck = SM.flat_measurement_keys(flat), SM.flat_external_controls(flat)
+        for rnd in (0, 1):  # key protocols queried before and after the unrolling routes (instance caches)
+            cx.check(key_strs(cirq.measurement_key_objs(circuit)) == mk, f'{label}: measurement_key_objs(circuit) [{rnd}]')
+            cx.check(key_strs(cirq.control_keys(circuit)) == ck, f'{label}: control_keys(circuit) [{rnd}]')
+            cx.check(cirq.measurement_key_names(top) == mk, f'{label}: measurement_key_names(op) [{rnd}]')
+            cx.check(key_strs(cirq.control_keys(top)) == ck, f'{label}: control_keys(op) [{rnd}]')
+            if rnd == 0:
+                mc = top.mapped_circuit(deep=True)
+                cx.check(key_strs(cirq.measurement_key_objs(mc)) == mk and key_strs(cirq.control_keys(mc)) == ck, f'{label}: keys of mapped_circuit(deep)')
+                compare_structure(cx, expand_residual(mc), flat, f'{label}: mapped_circuit(deep)', wrong)
+                compare_structure(cx, cirq.Circuit(cirq.decompose(top, keep=is_flat_op)), flat, f'{label}: decompose')
+                un = cirq.unroll_circuit_op(circuit, deep=True, tags_to_check=None)
+                cx.check(key_strs(cirq.measurement_key_objs(un)) == mk and key_strs(cirq.control_keys(un)) == ck, f'{label}: keys of unroll_circuit_op')
+                compare_structure(cx, expand_residual(un), flat, f'{label}: unroll_circuit_op')
+        for it in items:
+            if isinstance(it, Sub):
+                op = SI.to_cirq(it)
+                f1 = SI.flatten([it])
+                cx.check(key_strs(cirq.measurement_key_objs(op)) == SM.flat_measurement_keys(f1), f'{label}: measurement_key_objs(sub op)')
+                cx.check(tuple(q.x for q in op.qubits) == SM.sub_qubits(it), f'{label}: qubits(sub op)')
+                if it.reps != 0:
+                    cx.check(key_strs(cirq.control_keys(op)) == SM.flat_external_controls(f1), f'{label}: control_keys(sub op)')
+        # every conditional block on its own (as written, before any enclosing map): If._control_keys_ / qubits / no measurement
+        for blk in walk_blocks(items):
+            bop = SI.to_cirq(blk)
+            cx.check(key_strs(cirq.control_keys(bop)) == SM.flat_external_controls(SI.flatten([blk])), f'{label}: control_keys(conditional block)')
+            cx.check(set(q.x for q in bop.qubits) == set(blk.qs) and not cirq.is_measurement(bop), f'{label}: qubits / is_measurement(conditional block)')
+
+    for bi, bname in enumerate(IF_BODY_NAMES):
+
+        def body(cx, wrong=False, bi=bi):
+            t, u, v = params3(cx)
+            wi = cx.choose('wrap', n_ifw)
+            items, nq = scenario_if(bi, wi, t, u)
+            if_struct_checks(cx, items, wrong, label=f'{IF_BODY_NAMES[bi]}/{IF_WRAPS[wi][0]}')
+
+        obs.append(
+            Obligation(
+                f'ifblock.keys.{bname}',
+                body,
+                twin=lambda cx, b=body: b(cx, wrong=True),
+                opts={'weight': 3},
+                points=[{'t': 0.3, 'u': 0.7, 'choose:wrap': i} for i in range(n_ifw)],
+                desc=f'[measure a, b; enclosing sub-circuit under {n_ifw} configurations (key maps a->c, b->d, swap a<->b, both + parent path; repetition ids, qubit map); control on a] whose body {bname} contains a CONDITIONAL BLOCK '
+                '(cirq.If / with_classical_controls over a CircuitOperation, several operations, an OP_TREE, nested If/CCO, inner key map / parent path / repetitions, KeyCondition / SympyCondition / BitMaskKeyCondition, Symbol exponent '
+                'bound by the enclosing param_resolver) that reads the re-mapped key in its condition and inside its body: measurement keys, external control keys and the per-qubit operation sequence (qubits, control keys, SYMBOLIC gate '
+                'matrices) of mapped_circuit(deep) / decompose / unroll_circuit_op (sub-circuits left below a condition expanded by cirq.decompose) equal the harness-unrolled program; control_keys of every block on its own',
+            )
+        )
+
+    VIA_BODIES = ('if_sub_same', 'cco_sub_two_keys', 'if_tree_if', 'if_sub_inner_kmap', 'cco_if_sub') if quick else tuple(IF_BODY_NAMES)
+
+    def body_if_via(cx, wrong=False):
+        t, u, v = params3(cx)
+        bi = IF_BODY_NAMES.index(VIA_BODIES[cx.choose('body', len(VIA_BODIES))])
+        wi = cx.choose('wrap', n_ifw)
+        via = VIA[cx.choose('via', len(VIA))]
+        items, nq = scenario_if(bi, wi, t, u)
+        k = [i for i, it in enumerate(items) if isinstance(it, Sub)][0]
+        op = build_via(via, items[k].items, {n: w for n, w in dict(IF_WRAPS[wi][1], **({'params': items[k].params} if items[k].params else {})).items()})
+        if op is None:
+            from symx.ctx import Infeasible
+
+            raise Infeasible()
+        circuit = cirq.Circuit()
+        for i, it in enumerate(items):
+            circuit.append(op if i == k else SI.to_cirq(it), strategy=cirq.InsertStrategy.NEW)
+        flat = SI.flatten(items)
+        f1 = SI.flatten([items[k]])
+        cx.check(key_strs(cirq.measurement_key_objs(op)) == SM.flat_measurement_keys(f1), f'{via}: measurement keys')
+        if items[k].reps != 0:  # control_keys of a 0-repetition op: obligation keys.zero_repetitions_protocols
+            cx.check(key_strs(cirq.control_keys(op)) == SM.flat_external_controls(f1), f'{via}: control keys')
+        compare_structure(cx, expand_residual(cirq.unroll_circuit_op(circuit, deep=True, tags_to_check=None)), flat, f'{IF_BODY_NAMES[bi]}/{IF_WRAPS[wi][0]}/{via}', wrong)
+
+    obs.append(
+        Obligation(
+            'ifblock.remap_routes',
+            body_if_via,
+            twin=lambda cx: body_if_via(cx, wrong=True),
+            opts={'weight': 14, 'max_paths': 100000},
+            points=[{'t': 0.3, 'u': 0.7, 'choose:body': i % len(VIA_BODIES), 'choose:wrap': w, 'choose:via': v_} for i, (w, v_) in enumerate([(3, 0), (4, 1), (5, 2), (2, 3), (5, 4), (2, 5), (5, 6), (1, 7), (6, 8), (4, 9), (6, 10), (7, 0)])],
+            desc=f'the enclosing sub-circuit of {len(VIA_BODIES)} conditional-block bodies obtained through the other public routes ({", ".join(VIA)}): with_measurement_key_mapping (method, protocol, two composed steps), '
+            'with_key_path (method, protocol), with_key_path_prefix, with_rescoped_keys, repeat(n, ids), with_repetition_ids, mapped_op(deep True/False): keys, external controls and unrolled structure with SYMBOLIC gate matrices equal the '
+            'harness-unrolled program of the constructor form',
+        )
+    )
+
+    IF_ROUTES = (('state', None), ('run', None), ('state', 'mapped')) + (() if quick else (('state', 'unrolled'),))
+
+    def if_transform(kind):
+        if kind == 'mapped':
+            return lambda c: cirq.CircuitOperation(c.freeze()).mapped_circuit(deep=True)
+        if kind == 'unrolled':
+            return lambda c: cirq.unroll_circuit_op(c, deep=True, tags_to_check=None)
+        return None
+
+    for bi, bname in enumerate(IF_BODY_NAMES):
+
+        def body(cx, wrong=False, bi=bi):
+            t, u, v = params3(cx)
+            wi = cx.choose('wrap', n_ifw)
+            route, tr = IF_ROUTES[cx.choose('route', len(IF_ROUTES))]
+            if quick and (route, tr) != ('state', None) and IF_WRAPS[wi][0] not in IF_WRAPS_QUICK_ALL_ROUTES:
+                from symx.ctx import Infeasible
+
+                raise Infeasible()
+            items, nq = scenario_if(bi, wi, t, u)
+            compare_run(cx, items, nq, route, wrong, label=f'{IF_WRAPS[wi][0]}/{route}/{tr}', to_cirq=SI.to_cirq, flatten=SI.flatten, transform=if_transform(tr))
+
+        obs.append(
+            Obligation(
+                f'ifblock.sim.{bname}',
+                body,
+                twin=lambda cx, b=body: b(cx, wrong=True),
+                opts={'weight': 10, 'max_paths': 100000},
+                points=[{'t': 0.3, 'u': 0.7, 'choose:wrap': (3 * i + 1) % n_ifw, 'choose:route': i % len(IF_ROUTES), 'choose:draw0': i % 2, 'choose:draw1': 1, 'choose:draw2': (i // 2) % 2, 'choose:draw3': 1} for i in range(8)],
+                desc=f'cirq.Simulator on [measure a, b; enclosing sub-circuit with the conditional-block body {bname} under {n_ifw} configurations; Z^u controlled by a] on {len(IF_ROUTES)} routes (as written with all record instances, Simulator.run, after mapped_circuit(deep=True)'
+                + ('' if quick else ', after unroll_circuit_op(deep=True)') + '): every measurement outcome is an explorer-chosen draw, the gates below the conditions carry SYMBOLIC exponents; records (all instances) and final state equal the reference '
+                'interpreter on the harness-unrolled flat program',
+            )
+        )
+
+    # ---- key-protocol methods of If / ClassicallyControlledOperation, called directly ------------------------------
+    def proto_ops(t, u):
+        sub = lambda: Sub([G('X', [1], t, conds=['a']), G('Z', [1], u, conds=['b'])])  # noqa: E731
+        return [
+            ('if_single', IfB(['a'], [G('X', [1], t)], 'if')),
+            ('if_over_cco', IfB(['a', 'b'], [G('X', [1], t, conds=[Cond('eq', 'a', value=1)])], 'if')),
+            ('cco_over_if', IfB(['b'], [IfB(['a'], [G('Y', [1], t)], 'if')], 'cco')),
+            ('if_sub', IfB(['a'], [sub()], 'if')),
+            ('cco_sub', IfB(['b'], [sub()], 'cco')),
+            ('if_multi', IfB(['b'], [G('X', [1], t, conds=['a']), G('Z', [1], u)], 'if')),
+            ('if_sub_wrapped', IfB(['a'], [Sub([G('X', [1], t, conds=['k']), G('Y', [1], u, conds=['b'])], kmap={'k': 'a'}, path=('s',), reps=2)], 'if')),
+            ('if_if_sub', IfB([Cond('mask', 'a', bitmask=1, target=1, equal=True)], [IfB([Cond('keyidx', 'b', index=0)], [sub()], 'if')], 'if')),
+        ]
+
+    N_PROTO = 8
+    PROTO_T = (
+        [('kmap', m) for m in ({'a': 'c'}, {'b': 'd'}, {'a': 'b', 'b': 'a'}, {'a': 'b', 'b': 'c'}, {'k': 'z', 's': 'y'})]
+        + [('prefix', p) for p in (('p',), ('p', 'q'))]
+        + [('prefix2', (('p',), ('q',)))]
+        + [('rescope', (p, vis)) for p, vis in (
+            (('p',), ()),
+            (('p',), ((('p',), 'a'),)),
+            (('p',), (((), 'a'), ((), 'b'))),
+            (('p',), ((('p',), 'a'), ((), 'a'), ((), 'b'))),
+            (('p',), ((('q',), 'a'), (('p', 'x'), 'b'))),
+            (('p', 'q'), ((('p',), 'a'), (('p', 'q'), 'b'))),
+            ((), (((), 'a'),)),
+        )]
+        + [('key_path', ('p',))]
+    )
+
+    def body_if_protocols(cx, wrong=False):
+        t, u, v = params3(cx)
+        oi = cx.choose('op', N_PROTO)
+        kind, arg = PROTO_T[cx.choose('transform', len(PROTO_T))]
+        level = ('op', 'circuit', 'context')[cx.choose('level', 3)]
+        name, spec = proto_ops(t, u)[oi]
+        op = SI.to_cirq(spec)
+        mkey = lambda path, nm: cirq.MeasurementKey(name=nm, path=tuple(path))  # noqa: E731
+        pre = [G('H', [0]), M('a', [0])]
+
+        def T(x):
+            if kind == 'kmap':
+                return cirq.with_measurement_key_mapping(x, arg)
+            if kind == 'prefix':
+                return cirq.with_key_path_prefix(x, arg)
+            if kind == 'prefix2':
+                return cirq.with_key_path_prefix(cirq.with_key_path_prefix(x, arg[0]), arg[1])
+            if kind == 'rescope':
+                return cirq.with_rescoped_keys(x, arg[0], frozenset(mkey(p_, n_) for p_, n_ in arg[1]))
+            return cirq.with_key_path(x, arg)
+
+        if level == 'context':
+            # the transformed operation used: placed after a measurement of the key its condition now names, inside a
+            # sub-circuit (whose unrolling re-scopes it with the keys measured so far)
+            if kind == 'kmap':
+                mk_name, tspec = arg.get('a', 'a'), Sub([spec], kmap=arg)
+            elif kind == 'prefix':
+                mk_name, tspec = ':'.join(arg) + ':a', SI.prefixed(spec, arg)
+            elif kind == 'prefix2':
+                mk_name, tspec = ':'.join(arg[1] + arg[0]) + ':a', SI.prefixed(SI.prefixed(spec, arg[0]), arg[1])
+            else:
+                from symx.ctx import Infeasible
+
+                raise Infeasible()
+            W = [dict(), dict(reps=2, use_ids=True), dict(path=('r',))][cx.choose('outer', 3)]
+            holder = cirq.CircuitOperation(cirq.FrozenCircuit(cirq.H(Q(0)), cirq.measure(Q(0), key=cirq.MeasurementKey.parse_serialized(mk_name)), T(op)), **SI.sub_kwargs(Sub([], **W)))
+            flat = SI.flatten([Sub(pre[:1] + [M(mk_name, [0]), tspec], **W)])
+            cx.check(key_strs(cirq.control_keys(holder)) == SM.flat_external_controls(flat), f'{name}/{kind}/context: control_keys')
+            compare_structure(cx, cirq.Circuit(cirq.decompose(holder, keep=is_flat_op)), flat, f'{name}/{kind}/context', wrong)
+            return
+        if kind == 'key_path':
+            # "Adds the path to the target's MEASUREMENT keys": a conditional block measures nothing; the operation does not
+            # implement the protocol, a circuit re-paths its measurements only
+            if level == 'op':
+                cx.check(T(op) is NotImplemented and not wrong, 'with_key_path of an operation that measures nothing')
+                return
+            got = T(cirq.Circuit([SM.to_cirq(x) for x in pre] + [op]))
+            flat = SI.flatten([G('H', [0]), M(':'.join(arg) + ':a', [0]), spec])
+        else:
+            got = T(op) if level == 'op' else T(cirq.Circuit(op))
+            if kind == 'kmap':
+                flat = SI.flatten([spec], kmap=arg)
+            elif kind == 'prefix':
+                flat = SI.flatten([SI.prefixed(spec, arg)])
+            elif kind == 'prefix2':
+                flat = SI.flatten([SI.prefixed(SI.prefixed(spec, arg[0]), arg[1])])
+            else:
+                flat = SI.flatten([spec], path=arg[0], visible=arg[1])
+        cx.check(got is not NotImplemented, f'{kind}: implemented')
+        if level == 'op':
+            cx.check(isinstance(got, type(op)), f'{kind}: the result is an operation of the same class')
+            cx.check(tuple(got.qubits) == tuple(op.qubits), f'{kind}: qubits kept')
+            bare, sbare = got.without_classical_controls(), spec_bare(SI.prefixed(spec, arg) if kind == 'prefix' else spec)
+            if kind in ('prefix', 'kmap') and isinstance(sbare, Sub):
+                # documented attributes of the sub-circuit below the conditions: parent_path = prefix + old path; composed key map
+                cx.check(isinstance(bare, cirq.CircuitOperation) and tuple(bare.parent_path) == tuple(sbare.path), f'{name}/{kind}: parent_path of the conditional sub-circuit')
+                if kind == 'kmap':
+                    names = sorted({c_.name for g_ in sbare.items for c_ in g_.conds})
+                    want = {n_: arg.get(sbare.kmap.get(n_, n_), sbare.kmap.get(n_, n_)) for n_ in names}
+                    cx.check(dict(bare.measurement_key_map) == {a_: b_ for a_, b_ in want.items() if a_ != b_}, f'{name}/{kind}: measurement_key_map of the conditional sub-circuit')
+        cx.check(key_strs(cirq.control_keys(got)) == SM.flat_external_controls(flat), f'{name}/{kind}: control_keys')
+        cx.check(key_strs(cirq.measurement_key_objs(got)) == SM.flat_measurement_keys(flat), f'{name}/{kind}: measurement keys')
+        real = cirq.Circuit(cirq.decompose(got, keep=is_flat_op))
+        compare_structure(cx, real, flat, f'{name}/{kind}/{level}', wrong)
+        # the operation handed in is immutable: its own keys are as before
+        cx.check(key_strs(cirq.control_keys(op)) == SM.flat_external_controls(SI.flatten([spec])), f'{name}/{kind}: original operation unchanged')
+
+    obs.append(
+        Obligation(
+            'ifblock.protocols',
+            body_if_protocols,
+            twin=lambda cx: body_if_protocols(cx, wrong=True),
+            opts={'weight': 8, 'max_paths': 100000},
+            points=[{'t': 0.3, 'u': 0.7, 'choose:op': i % N_PROTO, 'choose:transform': i % len(PROTO_T), 'choose:level': (i // 3) % 3, 'choose:outer': i % 3} for i in range(len(PROTO_T))],
+            desc=f'key protocols called DIRECTLY on {N_PROTO} conditional operations (If / CCO over one gate, over a CCO, CCO over If, over a CircuitOperation, several operations, a wrapped CircuitOperation, nested Ifs with BitMask / indexed conditions), '
+            f'on the operation and through Circuit -> Moment: cirq.with_measurement_key_mapping (5 maps incl. swap and chain), with_key_path_prefix (once, twice), with_rescoped_keys (7 path / bindable-key sets), with_key_path, control_keys: '
+            'the fully decomposed result (SYMBOLIC gate matrices) and its control keys equal the flat program of the spec transformed by hand; the operation handed in is unchanged',
+        )
+    )
+
+    # ---- conditions on TWO keys under key maps -----------------------------------------------------------------------------
+    TWO_KEY_MAPS_OK = [None, {'a': 'c'}, {'b': 'd'}, {'a': 'c', 'b': 'd'}]
+    TWO_KEY_MAPS_BAD = [{'a': 'b', 'b': 'a'}, {'a': 'b', 'b': 'c'}, {'b': 'a', 'a': 'c'}]
+
+    def body_two_keys(cx, maps, wrong=False):
+        t, u, v = params3(cx)
+        km = maps[cx.choose('kmap', len(maps))]
+        shape = cx.choose('shape', 3)
+        W = [dict(), dict(reps=2, use_ids=True), dict(path=('p',))][cx.choose('wrap', 2 if quick else 3)]
+        c2 = Cond('eq2', 'a', name2='b')
+        blk = [G('X', [1], t, conds=[c2]), IfB([c2], [Sub([G('X', [1], t, conds=['a']), G('Z', [1], u)])], 'if'), IfB(['a'], [G('X', [1], t, conds=[c2]), G('Z', [1], u)], 'if')][shape]
+        items = [Sub([G('H', [0]), G('H', [2]), M('a', [0]), M('b', [2]), blk], kmap=km, **W), G('H', [1], 0.5)]
+        circuit = build_circuit(items, SI.to_cirq)
+        flat = SI.flatten(items)
+        if cx.choose('observe', 2) == 0:
+            cx.check(key_strs(cirq.control_keys(circuit)) == SM.flat_external_controls(flat), 'control keys (none: both keys are measured inside)')
+            compare_structure(cx, cirq.Circuit(cirq.decompose(cirq.CircuitOperation(circuit.freeze()), keep=is_flat_op)), flat, f'two-key condition under {km}', wrong)
+        else:
+            compare_run(cx, items, 3, 'state', wrong, label=f'two-key condition under {km}', to_cirq=SI.to_cirq, flatten=SI.flatten)
+
+    obs.append(
+        Obligation(
+            'ifblock.two_key_condition',
+            lambda cx, wrong=False: body_two_keys(cx, TWO_KEY_MAPS_OK, wrong),
+            twin=lambda cx: body_two_keys(cx, TWO_KEY_MAPS_OK, True),
+            opts={'weight': 6, 'max_paths': 100000},
+            points=[{'t': 0.3, 'u': 0.7, 'choose:kmap': i % 4, 'choose:shape': i % 3, 'choose:wrap': (i // 2) % 2, 'choose:observe': i % 2, 'choose:draw0': i % 2, 'choose:draw1': (i // 2) % 2} for i in range(6)],
+            desc='SympyCondition Eq(a, b) on TWO keys measured in the sub-circuit (as a control, as the condition of an If over a CircuitOperation, inside a multi-operation If) under key maps that send no key of the condition onto '
+            'another key of it (none, a->c, b->d, both) x (plain, repetition ids, parent path): unrolled structure and simulation (SYMBOLIC exponents, explorer-chosen outcomes) equal the flat program',
+        )
+    )
+    obs.append(
+        Obligation(
+            'finding.sympy_condition_key_swap',
+            lambda cx, wrong=False: body_two_keys(cx, TWO_KEY_MAPS_BAD, wrong),
+            twin=lambda cx: body_two_keys(cx, TWO_KEY_MAPS_BAD, True),
+            opts={'weight': 6, 'max_paths': 100000},
+            points=[],
+            desc='the same under key maps that send one key of the condition onto another key of it (swap a<->b, chains a->b->c): every key of the condition is renamed by the map, simultaneously',
+        )
+    )
     return obs
 
 
@@ -876,13 +1317,17 @@ LEVEL = (
     'with the product / reference-interpreter state of the FLAT program that the harness builds by applying the maps by hand from a plain-data spec tree. '
     'Measurement outcomes are explorer-chosen per draw (scripted PRNG: every outcome of non-zero probability is a path). The SHAPE of the nesting (bodies, '
     'repetitions in -2..3, qubit maps, key maps, parent paths, repetition ids, depth, scoping scenario) and all key/path comparisons are finite: that part is '
-    'solver-driven bounded exploration of stated menus, exhausted, not a proof over all circuits.'
+    'solver-driven bounded exploration of stated menus, exhausted, not a proof over all circuits. '
+    'Conditional blocks (obligations ifblock.*): cirq.If / with_classical_controls over a CircuitOperation or several operations, placed inside an enclosing sub-circuit that renames the keys; '
+    'the exponents of the gates below the conditions are symbolic reals, the outcomes of all measurements explorer-chosen draws; body shapes, enclosing configurations, construction routes and '
+    'protocol arguments are exhausted menus.'
 )
 
 ASSUMPTIONS = BASE_ASSUMPTIONS + [
     'measurement outcomes: a scripted generator stands for np.random.RandomState inside the simulator; it records the probability vector requested and lets the explorer choose every outcome of non-zero probability; probabilities are constants in these circuits (measured qubits are prepared by H / X); a symbolic probability whose non-constant part is a sum of unit-modulus exponentials with total coefficient <= 1e-9 (floating-point residue of cos^2+sin^2) is taken as its constant part',
     'numpy.linalg.matrix_power on symbolic matrices is modelled by its documented definition (symx/linalg_models.py)',
     'repeat_until loops: outcome sequences needing more than 3 iterations of one loop are cut (unwinding bound), stated in bounds',
+    'conditional blocks (oracles/subcircuit_if_model.py): a condition in front of a measurement-free block is that condition on every operation of the unrolled block (If / ClassicallyControlledOperation docstrings); mapped_circuit(deep=True) and unroll_circuit_op(deep=True) leave a CircuitOperation that stands below a classical condition in place (they descend into bare CircuitOperations only): it is expanded by cirq.decompose before the operation-by-operation comparison, and simulated as left; model validated against the real code on 10000 random concrete spec trees with conditional blocks during development',
     'scoping oracle (oracles/subcircuit_model.py) written from the CircuitOperation / control_keys / Condition docstrings and docs/build/classical_control.ipynb; validated against the real code on 12000 random concrete spec trees during development',
 ]
 
@@ -901,6 +1346,14 @@ def main(tier, seed=0, replay=None, only=None, procs=None):
             'key maps': '6 maps, all ordered pairs; path operations: ' + ', '.join(['prefix', 'prefix twice', 'with_key_path', 'with_rescoped_keys', 'replace', 'with_repetition_ids', 'repeat with ids', 'mapped_op']),
             'conditions': 'KeyCondition (with index), BitMaskKeyCondition, SympyCondition Eq(key, const), cirq.If',
             'repeat_until': '7 scenarios, <= 3 iterations per loop',
+            'conditional blocks (ifblock.*)': {
+                'bodies of the enclosing sub-circuit': IF_BODY_NAMES,
+                'enclosing configurations': [w[0] for w in IF_WRAPS] + [f'quick: the first {N_IF_WRAPS_QUICK}; quick simulates run / mapped_circuit routes for {list(IF_WRAPS_QUICK_ALL_ROUTES)} only'],
+                'construction routes of the enclosing sub-circuit': VIA,
+                'direct protocol calls': '8 conditional operations x (5 key maps, 3 prefixes, 7 with_rescoped_keys path / bindable sets, with_key_path) x (operation, Circuit -> Moment, used inside a sub-circuit after a measurement of the renamed key)',
+                'two-key SympyCondition Eq(a, b)': 'key maps none / a->c / b->d / both (healthy family); swap a<->b and chains a->b->c are obligation finding.sympy_condition_key_swap',
+                'simulation': 'circuit as written (state route, Simulator.run), after mapped_circuit(deep=True), after unroll_circuit_op(deep=True) (thorough)',
+            },
             'simulation routes': 'SimulationProductState around an own ClassicalDataDictionaryStore (all record instances) / Simulator.simulate_moment_steps default / Simulator.run(repetitions=1)',
         },
         'sizes': 'sub-circuits <= 4 ops on <= 2 (3 with a 2-qubit measurement) qubits, outer circuit <= 3 qubits',
@@ -912,6 +1365,7 @@ def main(tier, seed=0, replay=None, only=None, procs=None):
             'symbolic Born probabilities (C02); density-matrix / Clifford simulators; qudits; noise',
             'numpy.linalg inverse of symbolic matrices larger than 2x2',
             'serialization (_json_dict_), diagrams, repr/str',
+            'conditional blocks: bodies with measurements (documented ValueError of If / ClassicallyControlledOperation), negative repetitions of a classically controlled body (no inverse), repeat_until inside a block, key maps that are not injective over the touched names, If._qasm_ (C19) / _circuit_diagram_info_ / _json_dict_ (C11); a key path on a measurement-free conditional sub-circuit has no effect on key binding, so with_key_path_prefix of the BODY is observed through the documented parent_path attribute only; conditions that contain both a key and the same key with the prefix already applied',
             'CircuitOperation.repeat(n, ids) on an id-less loop (|repetitions| > 1): rejected by the constructor length check, accepted here as the documented ValueError',
         ],
     }
